@@ -7,8 +7,9 @@ The abstract swap engine.
 Its control part is the GENERATED state table of a role (Gen/Tables.lean) interpreted exactly as
 `SwapStateMachine.SendEvent` / `Recover` do (fsm.go):
 
-  * an external event's context is applied to the data and persisted BEFORE the table is consulted;
-  * a rejected event leaves everything as it is;
+  * an external event the current state does not accept leaves everything as it is (the table is
+    consulted before anything else);
+  * an accepted event's context is applied to the data and persisted, then the transition runs;
   * on a transition the action chain of the NEW state runs, then the record is persisted;
   * `NoOp` and `Event_Done` end the handling (`Done` also removes the swap from the active map),
     `Event_OnRetry` loops (and gives up after 21 rounds), every other result event is handled next;
@@ -94,8 +95,26 @@ def rejectSteps {F : Type} (sys : Sys F) (m : MC F) : List (MC F) :=
     | none => [{ m with pend := none }]
     | some _ => []
 
-/-- steps of a live process that end with a store write: an external event's context is applied and
-    persisted, or the event in flight makes a transition and the new state's action runs -/
+/-- events that carry a message (an `EventContext`); all other outside events (timer, payment and chain
+    notifications, a watcher error, and the `Event_Invalid_Message` that a failed validation turns a
+    message into) are sent with a nil context -/
+def hasCtx (e : Ev) : Bool :=
+  e == E_OnCancelReceived || e == E_OnCoopCloseReceived || e == E_OnFeeInvoiceReceived || e == E_OnTxOpenedMessage ||
+  e == E_SwapInSender_OnAgreementReceived || e == E_OnSwapOutStarted || e == E_SwapInSender_OnSwapInRequested ||
+  e == E_OnSwapOutRequestReceived || e == E_SwapInReceiver_OnRequestReceived
+
+/-- an outside event `e` reaches a swap at rest.  For a message event `SendEvent` consults the table
+    FIRST — a message the current state does not accept changes nothing and writes nothing; otherwise its
+    context is applied to the swap data and persisted before the transition runs.  A context-free event
+    is persisted (unchanged data) and then looked up. -/
+def extStep {F : Type} (sys : Sys F) (m : MC F) (e : Ev) : List (MC F) :=
+  if hasCtx e && (nextSt sys.table m.st e).isNone then []
+  else match sys.applyCtx e m.f with
+    | none => []
+    | some f1 => [⟨m.st, f1, some e, true, m.active⟩]
+
+/-- steps of a live process that end with a store write: an accepted outside event's context is applied
+    and persisted, or the event in flight makes a transition and the new state's action runs -/
 def persistSteps {F : Type} (sys : Sys F) (m : MC F) : List (MC F) :=
   if !m.alive then [] else
   match m.pend with
@@ -103,8 +122,7 @@ def persistSteps {F : Type} (sys : Sys F) (m : MC F) : List (MC F) :=
     -- `OnTxConfirmed` with a watcher error sends `ActionFailed` and then, without returning, a second
     -- event through the pointer it still holds, even if the first one finished the swap and removed it
     -- from the active map
-    (if m.active then sys.ext else [E_OnTxConfirmed]).filterMap fun e =>
-      (sys.applyCtx e m.f).map fun f1 => ⟨m.st, f1, some e, true, m.active⟩
+    (if m.active then sys.ext else [E_OnTxConfirmed]).flatMap (extStep sys m)
   | some e => match nextSt sys.table m.st e with
     | none => []
     | some s' => actionDone sys s' m.f m.active
